@@ -617,7 +617,8 @@ static void evaluate(const DataSet& d, const Opt& o) {
         if (r.kind != Outcome::ok) { ++C["failed_cycles"]; report(d, nullptr, o, r); }
         return;
     }
-    std::set<size_t>& quarantine = g_quarantine[d.name + "|" + area(o, 'n')];
+    // (the feed modes of the interleaved data set contain the same objects at the same indexes and share their quarantine)
+    std::set<size_t>& quarantine = g_quarantine[(d.name.compare(0, 6, "mixed:") == 0 ? std::string("mixed") : d.name) + "|" + area(o, 'n')];
     const std::set<size_t> before = quarantine;
     std::vector<size_t> active;
     for (size_t i = 0; i < d.objs.size(); ++i) if (!quarantine.count(i)) active.push_back(i);
